@@ -127,7 +127,10 @@ func genCall(t *rapid.T, c *Case, maxBody int) Call {
 	}
 	call.Method = rapid.SampledFrom([]string{"GET", "GET", "POST", "PUT", "DELETE"}).Draw(t, "method")
 	call.OpClient = rapid.IntRange(0, 2).Draw(t, "opclient") == 0
-	call.OpCtx = rapid.SampledFrom([]string{"", "", "", "live", "live", "cancelled"}).Draw(t, "opctx")
+	call.OpCtx = rapid.SampledFrom([]string{"", "", "", "live", "live", "cancelled", "background", "todo"}).Draw(t, "opctx")
+	if call.BodyLen >= 0 {
+		call.BodyHead = rapid.SampledFrom([]string{"", "", "", "", "bom", "bom16", "gzip", "zip"}).Draw(t, "bodyhead")
+	}
 	call.ReaderErr = rapid.IntRange(0, 7).Draw(t, "readererr") == 0
 	return call
 }
@@ -245,6 +248,9 @@ func Classify(c Case) (bool, []string) {
 			lab["status 4xx"] = true
 		default:
 			lab["status 5xx"] = true
+		}
+		if call.BodyHead != "" && !call.noBody() {
+			lab["body starts with magic bytes ("+call.BodyHead+")"] = true
 		}
 		if !call.noBody() {
 			lab["framing "+call.Framing] = true
